@@ -794,10 +794,6 @@ static int resolve(sim_inst *I, const plan_op *po, sim_xop *x, int in_action)
 	case SOP_LESS:
 		if (!in_action || I->is_eof || I->did_less || I->did_textop || I->did_bufop)
 			return 0;
-		/* %array: yyless() after yymore() in the same action cancels the
-		 * yymore() (known finding K-more-less, probed separately) */
-		if (I->did_more && vt->text_is_array && !(allow_mask & 1))
-			return 0;
 		x->a = I->more_prefix + lmod(po->a, I->cur_len - I->more_prefix + 1);
 		return 1;
 	case SOP_UNPUT:
@@ -1126,11 +1122,6 @@ int sim_wrap_next(sim_xop *x)
 		if (po->code == SOP_POP_BUF && I->depth < 2)
 			ok = 0;
 
-		else if (I->prev_more && (po->code == SOP_PUSHNEW || po->code == SOP_SWITCHNEW) && !(allow_mask & 2))
-			/* a yymore() is pending at the end of the source: leaving the
-			 * buffer now and coming back later yields a phantom NUL token
-			 * (known finding K-more-eof-switch, probed separately) */
-			ok = 0;
 		else {
 			resolving_wrap = 1;
 			ok = resolve(I, po, x, 1);
